@@ -67,7 +67,33 @@ class Report:
         self.units: List[str] = []
         self.rules_run: Dict[str, str] = {}
         self.extra_cov: Dict[str, Any] = {}
+        self.errors: List[str] = []
         self.t0 = time.time()
+
+    def isolated(self):
+        """Context manager around one rule: an AnalysisError (or a crash) of that rule is recorded and the remaining rules of
+        the property still run, so that an uninterpretable construct in one place cannot hide a violation found elsewhere."""
+        rep = self
+
+        class _Iso:
+            def __enter__(self_inner):
+                return rep
+
+            def __exit__(self_inner, et, ev, tb):
+                if et is None:
+                    return False
+                if issubclass(et, AnalysisError):
+                    rep.errors.append(str(ev))
+                    return True
+                if issubclass(et, Exception):
+                    import traceback as _tb
+                    where = _tb.format_exception(et, ev, tb)[-2].strip().splitlines()[-1].strip() if tb else ""
+                    rep.errors.append(f"internal error: {et.__name__}: {ev} @ {where}")
+                    if os.environ.get("CMINX_SA_DEBUG"):
+                        _tb.print_exception(et, ev, tb)
+                    return True
+                return False
+        return _Iso()
 
     # ------------------------------------------------------------------
     def rule(self, rule_id: str, text: str) -> None:
@@ -130,6 +156,8 @@ def finish(rep: Report, seed: int = 0, error: Optional[str] = None) -> int:
     known = [k for k in load_known() if k.get("property") == rep.prop and k.get("status") == "known"]
     known_keys = {k["key"]: k for k in known}
 
+    if error is None and rep.errors:
+        error = " ;; ".join(rep.errors[:4])
     floor_errors = []
     if error is None:
         for rule, (minimum, what) in rep.floors.items():
@@ -215,6 +243,11 @@ def finish(rep: Report, seed: int = 0, error: Optional[str] = None) -> int:
 
     for line in lines:
         print(line)
+    if error is not None and unlisted:
+        # violations found by the rules that did run are real; the uninterpretable part is reported alongside
+        print(f"  note: part of the analysis could not be completed: {error}")
+        print(f"{rep.prop} [{rep.tier}] violations={len(unlisted)} (incomplete analysis)")
+        return 1
     if error is not None:
         print(f"ANALYSIS-ERROR property={rep.prop} {error}")
         return 2
